@@ -565,7 +565,7 @@ def exhaustive_histories(tier, si, lo, hi):
 
 
 def plan(tier, seed, args):
-    n = args.runs or (3000 if tier == "quick" else 40000)
+    n = args.runs or (1500 if tier == "quick" else 30000)
     tasks = []
     run = 0
     if args.only != "seeded":
